@@ -711,3 +711,39 @@ def _lazily_formatted_messages(ctx):
                         ctx.obligation('%s at %s: the literal format string is well formed' % (name, where),
                                        well_formed, 'scan')
     ctx.obligation('the lazily formatted messages of the tree were found', sites >= 20, 'scan', detail={'sites': sites})
+
+
+# ------------------------------------------------------------------------------ glob patterns
+# `path GLOB-PATTERN` / `name GLOB-PATTERN` (file matcher): the pattern is the author's text.  pathlib rejects
+# some patterns when it is asked to match (PurePath.match('') raises ValueError("empty pattern"); so do patterns
+# it regards as invalid); fnmatch accepts every string.  A rejected pattern stems from the text of the test case:
+# at the latest HARD_ERROR.
+from exactly_lib.impls.types.matcher.impls import matches_glob_pattern as _glob
+
+P_GLOB = 'exactly_lib.impls.types.matcher.impls.matches_glob_pattern'
+
+
+class GlobModelPathI(Interface):
+    """a pathlib.Path as the model of the matcher: `match(pattern)` returns a bool or raises ValueError
+    (documented for the empty pattern; unacceptable patterns)"""
+    methods = {'match': Method(returns=Bool, may_raise=(ValueError,))}
+
+
+M.trust('pathlib.PurePath.match(pattern) returns a bool or raises ValueError (empty / unacceptable pattern); '
+        'fnmatch.fnmatch accepts every pattern')
+
+_GLOB_REPLAY = '''
+import pathlib
+from exactly_lib.impls.types.matcher.impls import matches_glob_pattern as g
+from exactly_lib.test_case.hard_error import HardErrorException
+try:
+    print('returned', g._match_path(pathlib.Path('a.txt'), '')); sys.exit(0)
+except HardErrorException:
+    print('HardErrorException: reported as HARD_ERROR'); sys.exit(0)
+except Exception as e:
+    print('the matcher lets', repr(e), 'escape when it is applied (inside main: INTERNAL_ERROR): `exists f : path \\'\\'`')
+    sys.exit(1)
+'''
+
+M.contract(P_GLOB + ':_match_path', params=dict(model=Iface(GlobModelPathI), pattern=Str), returns=Bool,
+           raises={HardErrorException: {}}, raises_only=(), replay=lambda model, rf: _GLOB_REPLAY)
